@@ -254,7 +254,7 @@ def execute(ctx, prog, display, terminal, firings, height, strategy, strat_kind,
             if op[1] in live._tasks:
                 live.advance(op[1], op[2])
         elif k == "add_task":
-            live.add_task("t", total=50)
+            live.add_task("K%d" % (10 + len(live._tasks)), total=50)
 
     def worker(th):
         def run():
@@ -269,8 +269,8 @@ def execute(ctx, prog, display, terminal, firings, height, strategy, strat_kind,
     def coordinator():
         if live is not None:
             if display.startswith("progress"):
-                live.add_task("a", total=50)
-                live.add_task("b", total=50)
+                live.add_task("K0", total=50)
+                live.add_task("K1", total=50)
             live.start()
         workers = [sched.spawn("T%d" % th, worker(th)) for th in range(len(prog))]
         me = sched.me()
@@ -418,6 +418,38 @@ def execute(ctx, prog, display, terminal, firings, height, strategy, strat_kind,
                 mech = "capture-while-live-display:live"
             ctx.violation(mech, dict(wit, screen=got[-20:], want_marks=want[-20:], last_frame=last_frame,
                                      frame_on_screen=frame_on_screen, tainted=tainted))
+            return
+    # (5') Progress displays: no printed line lost / overwritten on screen, and exactly the rows of the last drawn
+    # frame at the bottom (task descriptions are the tokens K<n>)
+    if display.startswith("progress") and terminal and not restarts:
+        ctx.count("mon.screen_replay_progress")
+        screen = term.Screen(60, console.size.height)
+        screen.feed(stream)
+        if screen.unknown:
+            ctx.mark_inconclusive("screen model met unknown sequence %r" % screen.unknown[:2])
+            return
+        got = screen.lines()
+        flat = []
+        for l in got:
+            flat.extend(_ANYMARK.findall(l))
+        krows_screen = [m for l in got for m in re.findall(r"K\d+", l)]
+        last = None
+        for w in file.writes:
+            ks = re.findall(r"K\d+", sgr.decode(w[2]).text)
+            if ks:
+                last = ks
+        tainted = taint(events, file.writes)
+        ctx.hist("print_vs_refresh_window_hit", "yes" if tainted else "no")
+        captured_while_live = any(op[0] in ("capture", "capture_same") for ops in prog for op in ops)
+        tall = last is not None and len(last) >= console.size.height
+        if not tall and (flat != file_marks or (last is not None and krows_screen != last)):
+            mech = "screen-differs-from-file-order-plus-last-frame:%s" % display
+            if tainted:
+                mech = "print-vs-refresh-window:progress"
+            elif captured_while_live:
+                mech = "capture-while-live-display:progress"
+            ctx.violation(mech, dict(wit, screen=got[-20:], want_marks=file_marks[-20:], last_frame=last,
+                                     frame_on_screen=krows_screen, tainted=tainted))
             return
     inter = tuple((w[1], "frame" if _FRAME.search(w[2]) else "text") for w in file.writes)
     ctx.hist("distinct_write_interleavings_sig", hash(inter) % 1000)
